@@ -123,16 +123,29 @@ func (m *c18Mgr) Stepdown(wait bool, id string) error { return m.r.add("action:m
 type c18Entry struct {
 	user, pass string
 	perms      []string
+	// keys absent from the entry in the credentials FILE (the value is then empty: every
+	// entry is decoded into a fresh value and inherits nothing from the entry before it)
+	noUser, noPass, noPerms bool
 }
 
 func c18StoreJSON(es []c18Entry) string {
 	var parts []string
 	for _, e := range es {
-		var ps []string
-		for _, p := range e.perms {
-			ps = append(ps, fmt.Sprintf("%q", p))
+		var kv []string
+		if !e.noUser {
+			kv = append(kv, fmt.Sprintf(`"username":%q`, e.user))
 		}
-		parts = append(parts, fmt.Sprintf(`{"username":%q,"password":%q,"perms":[%s]}`, e.user, e.pass, strings.Join(ps, ",")))
+		if !e.noPass {
+			kv = append(kv, fmt.Sprintf(`"password":%q`, e.pass))
+		}
+		if !e.noPerms {
+			var ps []string
+			for _, p := range e.perms {
+				ps = append(ps, fmt.Sprintf("%q", p))
+			}
+			kv = append(kv, fmt.Sprintf(`"perms":[%s]`, strings.Join(ps, ",")))
+		}
+		parts = append(parts, "{"+strings.Join(kv, ",")+"}")
 	}
 	return "[" + strings.Join(parts, ",") + "]"
 }
@@ -179,6 +192,15 @@ func c18GenStore(r *vfRng) []c18Entry {
 		k := r.Intn(4)
 		for j := 0; j < k; j++ {
 			e.perms = append(e.perms, r.Pick(c18PermPool))
+		}
+		// entries with absent keys, typically after a privileged entry
+		switch r.Intn(10) {
+		case 0, 1:
+			e.noPerms, e.perms = true, nil
+		case 2:
+			e.noPass, e.pass = true, ""
+		case 3:
+			e.noUser, e.user = true, ""
 		}
 		es = append(es, e)
 	}
@@ -694,9 +716,13 @@ func TestVerifC18(t *testing.T) {
 	}
 	specs := []storeSpec{{false, nil}, {true, nil}}
 	// directed stores first, then generated ones
-	specs = append(specs, storeSpec{true, []c18Entry{{"a", "p", []string{"all"}}}})
-	specs = append(specs, storeSpec{true, []c18Entry{{"a", "p", []string{"query"}}, {"b", "p", []string{"backup", "execute"}}}})
-	specs = append(specs, storeSpec{true, []c18Entry{{"*", "", []string{"status"}}, {"a", "q", []string{"join-read-only", "load", "remove", "leader-ops"}}}})
+	specs = append(specs, storeSpec{true, []c18Entry{{user: "a", pass: "p", perms: []string{"all"}}}})
+	specs = append(specs, storeSpec{true, []c18Entry{{user: "a", pass: "p", perms: []string{"query"}}, {user: "b", pass: "p", perms: []string{"backup", "execute"}}}})
+	specs = append(specs, storeSpec{true, []c18Entry{{user: "*", pass: "", perms: []string{"status"}}, {user: "a", pass: "q", perms: []string{"join-read-only", "load", "remove", "leader-ops"}}}})
+	// credential FILES whose later entries lack keys: they must inherit nothing from the entry before
+	specs = append(specs, storeSpec{true, []c18Entry{{user: "a", pass: "p", perms: []string{"all"}}, {user: "b", pass: "p", noPerms: true}}})
+	specs = append(specs, storeSpec{true, []c18Entry{{user: "a", pass: "p", perms: []string{"all"}}, {user: "b", noPass: true, noPerms: true}}})
+	specs = append(specs, storeSpec{true, []c18Entry{{user: "a", pass: "q", perms: []string{"execute", "query", "backup", "load", "join", "remove", "leader-ops"}}, {noUser: true, pass: "p", noPerms: true}, {user: "b", pass: "p", noPerms: true}}})
 	for i := 0; i < nStores; i++ {
 		specs = append(specs, storeSpec{true, c18GenStore(r)})
 	}
